@@ -489,3 +489,15 @@ func validProofFor(addr, message string) string {
 	}
 	return rec
 }
+
+// ModuleRegistered / Blocked: facts of the application wiring, read from the real app.
+func (w *World) ModuleRegistered(name string) bool {
+	return w.App.AccountKeeper.GetModuleAddress(name) != nil
+}
+func (w *World) Blocked(addr string) bool {
+	a, err := sdk.AccAddressFromBech32(addr)
+	if err != nil {
+		return false
+	}
+	return w.App.BankKeeper.BlockedAddr(a)
+}
